@@ -4,6 +4,7 @@ import (
 	"bytes"
 	"encoding/json"
 	"fmt"
+	"sort"
 	"sync"
 	"testing"
 	"time"
@@ -37,6 +38,10 @@ type e2eReq struct {
 	Code     int    `json:"code"` // what the handler answers
 	// Extra: elective options numbered above 258 that follow No-Response in the request
 	Extra []int `json:"extra,omitempty"`
+	// Lower: options of other features that the same request carries in front of No-Response:
+	// 6 Observe = register (empty value), -6 Observe = deregister (value 1), 17 Accept, 15 Uri-Query,
+	// 23 Block2 (block 0, 64 bytes), 60 Size1. None of them changes what RFC 7967 says about the response.
+	Lower []int `json:"lower,omitempty"`
 	// Dup (datagram): the same datagram is delivered a second time; what was suppressed for the
 	// first copy stays suppressed for the duplicate
 	Dup bool `json:"dup,omitempty"`
@@ -144,6 +149,23 @@ func execE2E(r *evid.Run) func(sc e2eScenario) *evid.Failure {
 				for _, x := range q.Extra {
 					m.Opts = append(m.Opts, peer.Opt(x, []byte{0xA1}))
 				}
+				for _, x := range q.Lower {
+					switch x {
+					case 6:
+						m.Opts = append(m.Opts, peer.Opt(6, nil))
+					case -6:
+						m.Opts = append(m.Opts, peer.Opt(6, []byte{1}))
+					case 17:
+						m.Opts = append(m.Opts, peer.Opt(17, nil))
+					case 15:
+						m.Opts = append(m.Opts, peer.Opt(15, []byte("a=b")))
+					case 23:
+						m.Opts = append(m.Opts, peer.Opt(23, []byte{2}))
+					case 60:
+						m.Opts = append(m.Opts, peer.Opt(60, []byte{3}))
+					}
+				}
+				sort.SliceStable(m.Opts, func(a, b int) bool { return m.Opts[a].Num < m.Opts[b].Num })
 				w.ToLib(m)
 				bubble.Wait()
 				out := w.FromLib()
@@ -254,6 +276,9 @@ func execE2E(r *evid.Run) func(sc e2eScenario) *evid.Failure {
 				if len(q.Extra) > 0 && q.ValueLen >= 0 {
 					cls = append(cls, "e2e/option-behind-no-response")
 				}
+				if len(q.Lower) > 0 && q.ValueLen >= 0 {
+					cls = append(cls, "e2e/other-feature-in-front-of-no-response")
+				}
 				r.Case("e2e", key, func() any { return sc }, cls...)
 			}
 		}
@@ -278,6 +303,7 @@ func genE2E(t *rapid.T) e2eScenario {
 		}
 		q.Extra = rapid.SampledFrom([][]int{nil, nil, {292}, {65000}, {292, 65000}}).Draw(t, "extra")
 		q.Dup = rapid.IntRange(0, 3).Draw(t, "dup") == 0
+		q.Lower = rapid.SampledFrom([][]int{nil, nil, nil, {6}, {6}, {-6}, {17}, {15}, {23}, {60}, {6, 17}, {6, 15, 60}}).Draw(t, "lower")
 		sc.Reqs = append(sc.Reqs, q)
 	}
 	return sc
